@@ -1,2 +1,45 @@
-(** C15 placeholder *)
-From GoSh Require Import Base.Bytes.
+(** C15 — Quoted text survives parsing and expansion unchanged. *)
+From GoSh Require Import Base.Bytes Base.Outcome Store.Env Expand.Expand Lex.Quote Lex.QuoteProofs.
+
+(** For every rune string s written under one of the POSIX literal quotings, every text that
+    follows the word (end of input, blank or operator), every environment (IFS, HOME, positional
+    parameters, variables -- all universally quantified inside [e]) and every expansion mode that
+    consults no pathname oracle (Literal, Pattern, Arith, Quote, or the default mode with noglob):
+    the word scanner returns one word, and expanding it yields exactly one field: s itself, or in
+    Pattern mode s with the pattern characters escaped.  The store is unchanged. *)
+Theorem C15_single_quotes :
+  forall users glob s tail f e mode,
+    forallb (fun c => negb (c =? 39)%N) s = true -> word_end tail -> mode_ok e mode ->
+    exists w, scan_word (S (S f)) (quote_single s ++ tail) [] = Some (w, tail) /\
+              expand_top users glob e w mode = Ok (e, [expected mode (encode_all s)]).
+Proof. exact roundtrip_single. Qed.
+Print Assumptions C15_single_quotes.
+
+Theorem C15_double_quotes :
+  forall users glob s tail f e mode,
+    word_end tail -> mode_ok e mode ->
+    exists w, scan_word (S (S f)) (quote_double s ++ tail) [] = Some (w, tail) /\
+              expand_top users glob e w mode = Ok (e, [expected mode (encode_all s)]).
+Proof. exact roundtrip_double. Qed.
+Print Assumptions C15_double_quotes.
+
+Theorem C15_backslash_each :
+  forall users glob s tail f e mode,
+    forallb (fun c => negb (c =? 10)%N) s = true -> s <> [] -> word_end tail -> mode_ok e mode -> (length s < f)%nat ->
+    exists w, scan_word f (quote_backslash s ++ tail) [] = Some (w, tail) /\
+              expand_top users glob e w mode = Ok (e, [expected mode (encode_all s)]).
+Proof. exact roundtrip_backslash. Qed.
+Print Assumptions C15_backslash_each.
+
+(** Any word made of such quoted parts (the mixed style) expands to the concatenation of their texts. *)
+Theorem C15_mixed_parts :
+  forall users glob w text e mode,
+    word_text w = Some text -> w <> [] -> mode_ok e mode ->
+    expand_top users glob e w mode = Ok (e, [expected mode text]).
+Proof. exact expand_literal_word. Qed.
+Print Assumptions C15_mixed_parts.
+
+(** Not proved: the default mode with pathname expansion enabled (the escaped pattern reaches Glob,
+    whose literal fast path returns the same string when such a file exists -- observed by the
+    harness with matching files in the working directory); that the escaped text matches only
+    itself is C12's denotation of an all-literal pattern. *)
